@@ -52,13 +52,31 @@ Proof.
   rewrite zlen_zdrop in * by lia. pose proof (zlen_nonneg rest). lia.
 Qed.
 
-Lemma find_id_spec : forall fuel pg p, 0 <= p <= zlen d -> zlen d - p < Z.of_nat fuel ->
-  pspecE EofM (ogg_find_id fuel pg) d p (fun pg' _ => ogg_first_is_id pg' = true).
+Lemma find_spec : forall fuel magic pg p, 0 <= p <= zlen d -> zlen d - p < Z.of_nat fuel ->
+  pspecE EofM (ogg_find fuel magic pg) d p (fun pg' _ => ogg_first_is magic pg' = true).
 Proof.
-  induction fuel as [|fuel IH]; intros pg p Hp Hf; [lia|].
-  cbn [ogg_find_id]. destruct (ogg_first_is_id pg) eqn:E; [pretn; exact E|].
+  induction fuel as [|fuel IH]; intros magic pg p Hp Hf; [lia|].
+  cbn [ogg_find]. destruct (ogg_first_is magic pg) eqn:E; [pretn; exact E|].
   pbind. eapply pspecE_post; [apply read_page_spec; exact Hp|].
   intros pg' p' Hp'. cbv beta in Hp'. apply IH; lia.
+Qed.
+Lemma find_id_spec : forall fuel pg p, 0 <= p <= zlen d -> zlen d - p < Z.of_nat fuel ->
+  pspecE EofM (ogg_find_id fuel pg) d p (fun pg' _ => ogg_first_is_id pg' = true).
+Proof. intros. apply find_spec; assumption. Qed.
+
+(* the common prologue: first page, find loop; then the packet exists *)
+Lemma find_first_packet fuel magic (k : page -> P (list Z)) :
+  zlen d < Z.of_nat fuel ->
+  (forall pg pk t p, p_packets pg = pk :: t -> pspecE EofM (k pg) d p (fun _ _ => True)) ->
+  pspecE EofM (pg <~ ogg_read_page ;; pg <~ ogg_find fuel magic pg ;; k pg) d 0 (fun _ _ => True).
+Proof.
+  intros Hf Hk. pose proof (zlen_nonneg d).
+  pbind. eapply pspecE_post; [apply read_page_spec; lia|].
+  intros pg p Hp. cbv beta in *.
+  pbind. eapply pspecE_post; [apply find_spec; lia|].
+  intros pg' p' Hid. cbv beta in *.
+  unfold ogg_first_is in Hid. destruct (p_packets pg') as [|pk t] eqn:E2; [discriminate|].
+  eapply Hk. exact E2.
 Qed.
 
 Lemma ogv_init_spec fuel : zlen d < Z.of_nat fuel -> pspecE EofM (ogv_init fuel) d 0 (fun _ _ => True).
@@ -70,14 +88,77 @@ Proof.
   pbind. eapply pspecE_post; [apply find_id_spec; lia|].
   intros pg' p' Hid. cbv beta.
   destruct (first pg'); cbn [negb]; [|praiseM].
-  unfold ogg_first_is_id in Hid. destruct (p_packets pg') as [|pk t] eqn:E2; [discriminate|].
+  unfold ogg_first_is_id, ogg_first_is in Hid. destruct (p_packets pg') as [|pk t] eqn:E2; [discriminate|].
   pbind. apply pspecE_lift. change (list_index 0 (pk :: t)) with (@Ok (list Z) pk). cbv beta iota.
   destruct (zlen pk <? 28) eqn:E3; [praiseM|]. apply Z.ltb_ge in E3.
   assert (H17 : zlen (zslice 11 28 pk) = 17) by (rewrite zlen_zslice; lia).
   cbv zeta. rewrite H17. change (17 =? 17) with true. cbn [negb].
   destruct (le_decode (zslice 1 5 (zslice 11 28 pk)) =? 0); [praiseM|]. pretn. exact I.
 Qed.
+Ltac zs17 n := rewrite zlen_zslice by lia; lia.
+
+Lemma ogo_init_spec fuel : zlen d < Z.of_nat fuel -> pspecE EofM (ogo_init fuel) d 0 (fun _ _ => True).
+Proof.
+  intro Hf. unfold ogo_init. apply find_first_packet; [exact Hf|].
+  intros pg pk t p E2. rewrite E2.
+  destruct (first pg); cbn [negb]; [|praiseM].
+  pbind. apply pspecE_lift. change (list_index 0 (pk :: t)) with (@Ok (list Z) pk). cbv beta iota zeta.
+  pbind. eapply pspecE_catch' with (E' := fun e => e = EStruct) (Q0 := fun _ _ => True).
+  - apply pspecE_lift. destruct (zlen (zslice 8 19 pk) =? 11); [exact I|reflexivity].
+  - intros e ->. cbn [exc_eqb]. intros. praiseM.
+  - intros s p' _. destruct (znth 0 s / 16 =? 0); cbn [negb]; [pretn; exact I|praiseM].
+Qed.
+
+Lemma ogs_init_spec fuel : zlen d < Z.of_nat fuel -> pspecE EofM (ogs_init fuel) d 0 (fun _ _ => True).
+Proof.
+  intro Hf. unfold ogs_init. apply find_first_packet; [exact Hf|].
+  intros pg pk t p E2. rewrite E2.
+  destruct (first pg); cbn [negb]; [|praiseM].
+  pbind. apply pspecE_lift. change (list_index 0 (pk :: t)) with (@Ok (list Z) pk). cbv beta iota.
+  destruct (zlen pk <? 56) eqn:E3; [praiseM|]. apply Z.ltb_ge in E3.
+  pbind. apply pspecE_unpack_le; [rewrite zlen_zslice; lia|]. cbv beta.
+  destruct (le_decode (zslice 36 40 pk) =? 0); [praiseM|].
+  pbind. apply pspecE_unpack_le; [rewrite zlen_zslice; lia|]. cbv beta.
+  pbind. apply pspecE_unpack_le; [rewrite zlen_zslice; lia|]. cbv beta.
+  pretn. exact I.
+Qed.
+
+Lemma ogt_init_spec fuel : zlen d < Z.of_nat fuel -> pspecE EofM (ogt_init fuel) d 0 (fun _ _ => True).
+Proof.
+  intro Hf. unfold ogt_init. apply find_first_packet; [exact Hf|].
+  intros pg data t p E2. rewrite E2.
+  destruct (first pg); cbn [negb]; [|praiseM].
+  pbind. apply pspecE_lift. change (list_index 0 (data :: t)) with (@Ok (list Z) data). cbv beta iota.
+  destruct (zlen data <? 42) eqn:E3; [praiseM|]. apply Z.ltb_ge in E3.
+  cbv zeta.
+  rewrite (zlen_zslice 7 9 data) by lia. replace (Z.min (9 - 7) (Z.max 0 (zlen data - 7)) =? 2) with true by (symmetry; apply Z.eqb_eq; lia).
+  cbn [negb].
+  destruct ((znth 0 (zslice 7 9 data) =? 3) && (znth 1 (zslice 7 9 data) =? 2)); cbn [negb]; [|praiseM].
+  rewrite (zlen_zslice 22 30 data) by lia. replace (Z.min (30 - 22) (Z.max 0 (zlen data - 22)) =? 8) with true by (symmetry; apply Z.eqb_eq; lia).
+  cbn [negb].
+  destruct (be_decode (zslice 4 8 (zslice 22 30 data)) =? 0) eqn:Eden; cbn [orb]; [praiseM|].
+  destruct (be_decode (zslice 0 4 (zslice 22 30 data)) =? 0); [praiseM|].
+  pbind. apply pspecE_unpack_be; [rewrite zlen_cons, zlen_zslice; lia|]. cbv beta.
+  pbind. apply pspecE_unpack_be; [rewrite zlen_zslice; lia|]. cbv beta.
+  pretn. exact I.
+Qed.
+
+Lemma mapped_total (m : nat -> P (list Z)) :
+  (forall fuel, zlen d < Z.of_nat fuel -> pspecE EofM (m fuel) d 0 (fun _ _ => True)) -> total (ogg_mapped m d).
+Proof.
+  intro H. unfold ogg_mapped. eapply total_prun with (Q := fun _ _ => True).
+  eapply pspecE_catch with (E' := EofM).
+  - apply pspecE_convert_io; [left; reflexivity|]. apply H. apply lin_fuel_gt; lia.
+  - intros e [He|He]; subst e; cbn; [reflexivity|]. intros. reflexivity.
+Qed.
 End WithD.
+
+Theorem oggopus_total d : total (oggopus_load d).
+Proof. apply mapped_total. apply ogo_init_spec. Qed.
+Theorem oggspeex_total d : total (oggspeex_load d).
+Proof. apply mapped_total. apply ogs_init_spec. Qed.
+Theorem oggtheora_total d : total (oggtheora_load d).
+Proof. apply mapped_total. apply ogt_init_spec. Qed.
 
 (* OggVorbisInfo(fileobj) itself may let EOFError out ... *)
 Theorem oggvorbis_info_cases d :
